@@ -5,7 +5,7 @@ import (
 	"strings"
 )
 
-const c05Rule = "keyword sets of 1..8 keywords over an 8-rune alphabet (a b c space 日 é x y; overlapping, nested, prefix/suffix chains, duplicates, keywords containing the separator, 1..3-byte runes), query texts of 0..12 runes given as a string, a []string or a []interface{} of 1..3 texts (joined by one space); half of the cases over TWO pattern fields sharing one keyword set; one document per keyword (validates the automaton against substring semantics) and the separator corner (list assignments with empty parts, keywords beginning / ending with / consisting of the separator), texts containing several different keywords, and mixed documents (pattern include/exclude combined with default fields in one conjunction) on the k-groups, compact and roaring indexes. Non-trivial = some query returns a non-empty proper subset of the documents; distinct = distinct input"
+const c05Rule = "keyword sets of 1..8 keywords over an 8-rune alphabet (a b c space 日 é x y; overlapping, nested, prefix/suffix chains, duplicates, keywords containing the separator, 1..3-byte runes), query texts of 0..12 runes given as a string, a []string or a []interface{} of 1..3 texts (joined by one space); half of the cases over TWO pattern fields sharing one keyword set; one document per keyword (validates the automaton against substring semantics) and the separator corner (list assignments with empty parts, keywords beginning / ending with / consisting of the separator), texts containing several different keywords, and mixed documents (pattern include/exclude combined with default fields in one conjunction) on the k-groups, compact and roaring indexes. cached builds (cold, then served from a shared cache provider by fresh builders) of conjunctions mixing a short keyword list with a long ordinary expression; Non-trivial = some query returns a non-empty proper subset of the documents; distinct = distinct input"
 
 var acAlphabet = []string{"a", "b", "c", " ", "日", "é", "x", "ab"}
 
@@ -264,7 +264,7 @@ func acAllMultibyte(add func(in interface{})) {
 func init() {
 	props["C05"] = &propDef{
 		header:    "From BE Require Import Corr.CheckC05.",
-		headers:   map[string]string{"E": "From BE Require Import Corr.CheckE2E.", "R": "From BE Require Import Corr.CheckRr."},
+		headers:   map[string]string{"E": "From BE Require Import Corr.CheckE2E.", "R": "From BE Require Import Corr.CheckRr.", "C": "From BE Require Import Corr.CheckCache."},
 		rule:      c05Rule,
 		shardSize: 40,
 		gen: func(tier string, r *Rand, add func(in interface{})) {
@@ -276,6 +276,7 @@ func init() {
 			acInvalidUTF8(add)
 			acAllMultibyte(add)
 			acRebuildCases(add)
+			acCachedCases(add)
 			for i := 0; i < n; i++ {
 				acTwoPatternFields = i%4 == 1 || i%4 == 3 // two pattern fields: each must keep its own keywords
 				docs, qs := acDocsQueries(r, i%2 == 0)
@@ -306,8 +307,12 @@ func init() {
 		exec: func(raw json.RawMessage) (execResult, error) {
 			var probe struct {
 				Fields json.RawMessage `json:"fields"`
+				Cache  bool            `json:"cache"`
 			}
 			json.Unmarshal(raw, &probe)
+			if probe.Cache {
+				return execCache(raw)
+			}
 			if probe.Fields != nil {
 				res, err := execRr(raw)
 				res.Family = "R"
@@ -317,5 +322,43 @@ func init() {
 			res.Family = "E"
 			return res, err
 		},
+	}
+}
+
+// acCachedCases: builders with a cache provider (cold build, then builds served from the cache by fresh builders that
+// share the provider): conjunctions that mix a pattern field holding FEW keywords with an ordinary expression long
+// enough to have the whole conjunction cached, as include and as exclude, next to pattern expressions that are long
+// enough themselves and to conjunctions that are not cached at all
+func acCachedCases(add func(in interface{})) {
+	ints := func(k, off int) TV {
+		l := make([]TV, k)
+		for i := range l {
+			l[i] = tvInt("int", int64(off+i))
+		}
+		return tvSlice("[]int", l...)
+	}
+	kw := func(inc bool, ss ...string) eExpr {
+		l := make([]TV, len(ss))
+		for i, s := range ss {
+			l[i] = tvStr(s)
+		}
+		return eExpr{F: 1, Inc: inc, V: tvSlice("[]string", l...)}
+	}
+	for _, kind := range []string{"kgroups", "compact"} {
+		c := eCase{Kind: kind, Policy: "error", Configs: map[int]string{1: "ac_matcher"}}
+		c.Docs = []eDoc{
+			{ID: 1, Cons: []eConj{{kw(true, "alpha"), {F: 0, Inc: true, V: ints(5, 0)}}}},
+			{ID: 2, Cons: []eConj{{kw(false, "beta", "gamma"), {F: 0, Inc: true, V: ints(4, 2)}}}},
+			{ID: 3, Cons: []eConj{{kw(true, "al", "pha", "beta")}}},
+			{ID: 4, Cons: []eConj{{{F: 0, Inc: true, V: ints(6, 0)}}, {kw(true, "delta")}}},
+			{ID: -5, Cons: []eConj{{kw(true, "delta", "beta"), kw(false, "zz"), {F: 0, Inc: false, V: ints(3, 0)}}}},
+		}
+		for _, t := range []string{"alpha beta", "gamma", "zzz delta", "alpha", "be ta", ""} {
+			for _, v := range []int64{0, 3, 5, 9} {
+				c.Queries = append(c.Queries, eQuery{A: []eAssign{{F: 1, V: tvStr(t)}, {F: 0, V: tvInt("int", v)}}})
+			}
+		}
+		add(cacheIn{Cache: true, Case: c, Thr: 2, Seed: 91, MissPct: 0, DropPct: 0})
+		add(cacheIn{Cache: true, Case: c, Thr: 2, Seed: 92, MissPct: 30, DropPct: 0, Retain: true})
 	}
 }
